@@ -50,8 +50,8 @@ def child_env(hashseed):
     return env
 
 
-class RunTimeout(Exception):
-    pass
+class RunTimeout(BaseException):
+    """raised by the per-run watchdog; a BaseException so that no `except Exception` of an engine (or of the code under test) can take it for a failure of the repository"""
 
 
 def _alarm(signum, frame):
